@@ -193,16 +193,40 @@ def children_shapes(level: str, levels: Dict[str, str], max_k: int = 3):
     yield "k2same", (lambda: [child_stub("c1", level, levels), child_stub("c1", level, levels)])
     yield "k3same", (lambda: [child_stub("c1", level, levels), child_stub("c2", level, levels), child_stub("c1", level, levels)])
     yield "seq", (lambda: SymSeq("children", child_stub("cg", level, levels), min_len=1))
+    # a child that is itself a REAL operator node (not a stub): an operator treats each child as ONE unit whatever the child is --
+    # a nested $and / $or / $and_any_order is never merged into its parent
+    for inner, cls in (("and", "NodeAnd"), ("or", "NodeOr"), ("any", "NodeAndAnyOrder")):
+        def mk(inner=inner, cls=cls):
+            a, b, c = (child_stub(f"c{j}", level, levels) for j in (1, 2, 3))
+            n = getattr(J.branch, cls)(node_data({"and": "$and", "or": "$or", "any": "$and_any_order"}[inner], J.gd.TimesType(1, 1), [a, b]))
+            n._spec_inner = inner
+            return [n, c]
+        yield f"in-{inner}", mk
 
 
 def spec_children(kids) -> List[str]:
-    return [child_text(c.cid) for c in kids]
+    out = []
+    for c in kids:
+        inner = getattr(c, "_spec_inner", None)
+        if inner is None:
+            out.append(child_text(c.cid))
+            continue
+        t = [child_text(x.cid) for x in c.children]
+        if inner == "and":
+            out.append("(?:" + "".join(t) + ")")
+        elif inner == "or":
+            out.append("(?:" + "|".join(f"(?:{x})" for x in t) + ")")
+        else:
+            out.append("(?:" + "|".join("(?:" + "".join(p_) + ")" for p_ in itertools.permutations(t)) + ")")
+    return out
 
 
 # --------------------------------------------------------------------------- $or / $and / $and_any_order / $not
 def _operator(cls_name: str, op: str, props: Sequence[str]):
     for level in (G.INST, G.OPER, G.DEREF):
-        for cshape in ("k1", "k2", "k3", "k2same", "k3same", "seq"):
+        for cshape in ("k1", "k2", "k3", "k2same", "k3same", "seq", "in-and", "in-or", "in-any"):
+            if cshape.startswith("in-") and level == G.DEREF:
+                continue
             sid = f"{op}:{level}:{cshape}"
             func = f"jasm.jasm_regex.tree_generators.pattern_node_implementations.node_branch_root.{cls_name}.get_regex"
 
@@ -338,9 +362,14 @@ def _mnemonic():
 _mnemonic()
 
 
+# concrete names of the [0-9a-f]+h spelling: what the rewrite does to particular digits (leading zeros, all zeros, upper case,
+# register look-alikes) is not visible on an opaque stem
+HEX_CONCRETE = ["10h", "0h", "00h", "08h", "0ah", "a0h", "ffh", "A3h", "ah", "dh"]
+
+
 def _operand():
     for fo in (False, True):
-        for cat in ("plain", "endh", "hexh", "int"):
+        for cat in ["plain", "endh", "hexh", "int"] + [f"hexc:{n}" for n in HEX_CONCRETE]:
             sid = f"operand:fo={int(fo)}:{cat}"
 
             def run(fo=fo, cat=cat, sid=sid):
@@ -348,6 +377,8 @@ def _operand():
                 levels: Dict[str, str] = {}
 
                 def mkname():
+                    if cat.startswith("hexc:"):
+                        return cat[5:]
                     if cat == "plain":
                         return Name("v")
                     if cat == "endh":
@@ -370,10 +401,12 @@ def _operand():
                     return f"{_window(txt, fo)},"
                 def pinned():
                     n = mkname()
+                    if cat.startswith("hexc:"):
+                        return f"{_window('0x' + n[:-1], fo)},"       # the digits exactly as written
                     return f"{_window('0x' + str.__str__(n.stem), fo)},"
                 rp = {"kind": "operand", "fo": fo, "cat": cat, "level": G.OPER}
                 return node_obligations(OP_FUNC, sid, ["C01", "C07", "C11", "C05"], G.OPER, build, spec, levels, replay=rp,
-                                        shapes=["one"], pinned=pinned if cat == "hexh" else None, unit=True)
+                                        shapes=["one"], pinned=pinned if cat.startswith("hex") else None, unit=True)
             scenario(sid, OP_FUNC, ["C01", "C07", "C11", "C05"],
                      inlined=["PatternNodeOperand._is_hex_operand", "_process_hex_operand",
                               "InstructionNodeHelper.get_pattern_node_name", "allow_matching_substring"],
